@@ -10,9 +10,9 @@ Open Scope N_scope.
 Inductive crash_kind := CK_Assertion | CK_Attribute | CK_Value | CK_Index | CK_Type.
 
 Section PB.
-Variable P : Type.    (* token position: (line, column) in the concrete instance *)
+Variable P : Type.    (* provenance: a token position, or the file name in force (both opaque to the parser) *)
 
-Record coord := mkCoord { cfile : str; cpos : P }.
+Record coord := mkCoord { cfile : P; cpos : P }.   (* Coord(file=clex.filename now, line/column of a token) *)
 
 Definition node := value coord.
 
@@ -20,12 +20,12 @@ Record tok := mkTok { tk : kind; tv : str; tp : P }.
 
 (* what the lexer delivers, one item per token() result or error callback *)
 Inductive pitem :=
-| PTok (k: kind) (v: str) (p: P) (file_after: str)
-| PErr (msg: str) (p: P) (file: str)
+| PTok (k: kind) (v: str) (p: P) (file_after: P)
+| PErr (msg: str) (p: P) (file: P)
 | PCrash.
 
 (* the location given to _parse_error: a Coord, a bare file name, the "?" string, or None *)
-Inductive errloc := L_coord (c: coord) | L_file (f: str) | L_raw (s: str) | L_none.
+Inductive errloc := L_coord (c: coord) | L_file (f: P) | L_raw (s: str) | L_none.
 
 Inductive res (A: Type) :=
 | Ok (a: A)
@@ -39,12 +39,12 @@ Arguments OutOfFuel {A}.
 
 Record pstate := mkPS {
   raw : list pitem;                 (* not yet delivered *)
-  eof_file : str;                   (* lexer filename after the last token() returned None *)
+  eof_file : P;                     (* lexer filename after the last token() returned None *)
   before : list (option tok);       (* buffer[0:index], reversed *)
   after : list (option tok);        (* buffer[index:] *)
   idx : nat;                        (* _index *)
   scopes : list (list (option str * bool));  (* head = innermost *)
-  curfile : str;                    (* clex.filename now *)
+  curfile : P;                      (* clex.filename now *)
   ticks : N                         (* number of _TokenStream.next() calls *)
 }.
 
@@ -184,7 +184,7 @@ Definition fill (n: nat) : M unit := fill_aux n n.
 Definition peek_k (k: nat) : M (option tok) :=
   fill k ;;;
   s <- get ;;
-  match nth_error (after s) (k - 1) with
+  match nth_error (after s) (Nat.pred k) with
   | Some t => ret t
   | None => crash CK_Index
   end.
@@ -209,10 +209,10 @@ Fixpoint unwind (n: nat) (b a: list (option tok)) : list (option tok) * list (op
   end.
 
 Definition reset (mk: nat) : M unit :=
-  fun s => let (b, a) := unwind (idx s - mk) (before s) (after s) in
+  fun s => let (b, a) := unwind (nsub (idx s) mk) (before s) (after s) in
            Ok (tt, mkPS (raw s) (eof_file s) b a mk (scopes s) (curfile s) (ticks s)).
 
-Definition cur_file : M str := s <- get ;; ret (curfile s).
+Definition cur_file : M P := s <- get ;; ret (curfile s).
 Definition tok_coord (t: tok) : M coord := f <- cur_file ;; ret (mkCoord f (tp t)).
 
 Definition s_before : str := s2l "before: ".
@@ -270,11 +270,10 @@ Definition get_attr (x: str) (v: node) : option node :=
   | _ => None
   end.
 
-Fixpoint set_nth {A} (i: nat) (x: A) (l: list A) : list A :=
-  match l, i with
-  | [], _ => []
-  | _ :: r, O => x :: r
-  | y :: r, S i' => y :: set_nth i' x r
+Fixpoint set_nth {A} (i: nat) (x: A) (l: list A) {struct l} : list A :=
+  match l with
+  | [] => []
+  | y :: r => match i with O => x :: r | S i' => y :: set_nth i' x r end
   end.
 
 Definition set_attr (x: str) (nv: node) (v: node) : option node :=
